@@ -112,6 +112,7 @@ def check(prog, rep, tier):
         rep.ok('R06.g', 'order-kept', found='%d codec functions scanned' % nf)
     rep.floor('R06.g', 'codec functions', nf, 45)
     common.well_known_names(prog, rep, 'R06.h')
+    common.extcom_name_consistency(prog, rep, 'R06.h')
 
     # ---------------------------------------------------------------- R06.i
     from .c08 import length_threshold_problems
@@ -135,8 +136,13 @@ def check(prog, rep, tier):
                     expected='1-octet length for <= 255 octets, extended length from 256', key=key)
         elif seenb >= {'B', 'H'}:
             rep.ok('R06.i', key, file=fn.file, line=fn.node.lineno, found='both forms reached')
+        elif seenb:
+            rep.bad('R06.i', key, file=fn.file, line=fn.node.lineno, func=q,
+                    found='only the length form(s) %s are produced: no path packs a well-formed attribute with the other '
+                          'form, so an AS_PATH on the other side of 255 octets cannot be encoded' % sorted(seenb),
+                    expected='1-octet form up to 255 octets and extended form above', key=key)
         else:
-            rep.undecided('R06.i', key, file=fn.file, line=fn.node.lineno, found='forms reached: %s' % sorted(seenb))
+            rep.undecided('R06.i', key, file=fn.file, line=fn.node.lineno, found='no symbolic path')
 
     # ---------------------------------------------------------------- R06.m
     from .c15 import loop_threshold_problem, cursor_names
